@@ -248,6 +248,9 @@ def mon_c11(rec):
         elif c["m"] == "IterCount":
             if c["err"] != "" or c["ret"] != "0:0/;1:10/;2:8589934594/":
                 out.append("closure with named integer parameters: the callee's invocations returned %r (error %r), expected '0:0/;1:10/;2:8589934594/'" % (c["ret"], c["err"]))
+        elif c["m"] == "IterPreCancelled":
+            if c["err"] != "" or c["ret"] != "0/context canceled;22/":
+                out.append("the callee invoked the passed function with an already cancelled context, then with a live one: the invocations ended as %r (call error %r), expected '0/context canceled;22/' (only the invocation whose context is cancelled fails)" % (c["ret"], c["err"]))
         elif c["m"] == "Groups":
             if c["err"] != "" or c["ret"] != "1[alice],0[],2[bob carol],0[]":
                 out.append("a function whose parameter is a list of lists, invoked with a nil inner list: the caller's function reported %r (error %r), expected '1[alice],0[],2[bob carol],0[]'" % (c["ret"], c["err"]))
